@@ -36,4 +36,19 @@ def interleaveOk (l : ECL) (v : Nat) : Bool :=
 theorem interleaveOk_all : (ECL.all.all fun l => (List.range 40).all fun v => interleaveOk l v) = true := by
   native_decide
 
+
+/-- de-interleaving by ISO Table 9 undoes the crate's interleaving: reading, block after block, the
+sequence positions ISO assigns to the block, and looking up which source index the crate put there,
+enumerates the source indices 0, 1, …, data_codewords - 1 in order -/
+def deintOk (l : ECL) (v : Nat) : Bool :=
+  let g := T.groups l v
+  let idxs := dataIdxs g.1 g.2.1 g.2.2.1 g.2.2.2
+  let sizes := Decode.blockSizes v l
+  let dc := T.dataCodewords l v
+  ((List.range sizes.length).flatMap fun b => (Decode.blockPositions sizes b).map fun k => idxs.getD k dc)
+    == List.range dc
+
+theorem deintOk_all : (ECL.all.all fun l => (List.range 40).all fun v => deintOk l v) = true := by
+  native_decide
+
 end FastQr.Finite
